@@ -72,7 +72,13 @@ _OT = C('Other', [P('a', 'int'), P('d', 'int', ['int', 0])], ['Root'])
 _UR = C('URoot', [P('a', 'int')], extra='default')
 _UM = C('UMid', [P('a', 'int')], ['URoot'], reg=False, extra='default')
 _UL = C('ULeaf', [P('a', 'int'), P('b', 'str', ['str', 'q'])], ['UMid'], extra='default')
+# an abstract class with its own recogniser: it may accept a node, it is never built
+_AR = C('AbR', [P('a', 'int')], abstract='abc', recognize=[['mapping'], ['attr', 'a']])
+_AK1 = C('AK1', [P('a', 'int'), P('b', 'int')], ['AbR'])
+_AK2 = C('AK2', [P('a', 'int'), P('c', 'int')], ['AbR'])
 MODELS = {
+    'AR': {'classes': [_AR, _AK1, _AK2],
+           'doc_type': ['union', REF('AbR'), ['list', REF('AbR')], ['dict', 'str', ['opt', REF('AbR')]]]},
     'UI': {'classes': [_UR, _UM, _UL], 'doc_type': ['union', REF('URoot'), ['list', REF('URoot')]]},
     # string-like classes and enums where bool-looking scalars may turn up
     'SL': {'classes': [_US, _YS, _COL], 'doc_type': ['list', ['union', REF('US'), 'int']]},
@@ -113,11 +119,11 @@ KEYS = {
     'L': ['x', 'a', 'b'], 'DM': ['k', 'j'], 'DU': ['k', 'j'], 'AB': ['a', 'b'],
     'SH': ['center', 'radius', 'width', 'x'], 'UN': ['a', 'b', 'c'],
     'WD': ['n', 'when', 'where', 'zz'], 'BF': ['k'],
-    'UI': ['a', 'b'], 'SL': ['k'], 'SM': ['k', 'true'], 'EU': ['c', 's', 'o', 't'], 'DP': ['a', 'b', 'c', 'd'], 'DK': ['m', 'y', 'k'], 'PR': ['a', '_id', 'b'], 'DI': ['a', 'b', 'c', 'd'], 'SV': ['line', 'col', 'w'],
+    'AR': ['a', 'b', 'c'], 'UI': ['a', 'b'], 'SL': ['k'], 'SM': ['k', 'true'], 'EU': ['c', 's', 'o', 't'], 'DP': ['a', 'b', 'c', 'd'], 'DK': ['m', 'y', 'k'], 'PR': ['a', '_id', 'b'], 'DI': ['a', 'b', 'c', 'd'], 'SV': ['line', 'col', 'w'],
 }
 SCALS = ['1', 'x', 'true', '1.5', '~', 'red', '"1"']
 SCALS_BY = {'SV': ['1', '7', 'x', '~'], 'WD': ['1', 'seven', '2001-01-01', '~', 'a/b', '1.5'],
-            'SH': ['1', '1.5', 'x', '~'], 'BF': ['1', 'true', 'x', '~']}
+            'SH': ['1', '1.5', '1e-05', 'x', '~'], 'V': ['1', '1.5', '1e-05', '+1E3', 'x', '~', 'true'], 'BF': ['1', 'true', 'x', '~']}
 
 
 # models fuzzed by fuzz/fuzz_load.py: the portfolio plus models with hooks,
